@@ -81,6 +81,25 @@ class MyRoot(reg32.AddrMap, word_count=8):
     f: Inner[8]
     g: Inner[16]
 ''', {0: "memword", 3: "memword", 5: "memword"}),
+    # fields that differ only in their reset value (template specialisations must not be shared)
+    "resetvals": ('''class RegA(reg32.Register):
+    thresh: reg32.MemUField[15:0, 0x1111]
+
+
+class RegB(reg32.Register):
+    thresh: reg32.MemUField[15:0, 0x2222]
+
+
+class MyRoot(reg32.AddrMap, word_count=4):
+    ra: RegA[0]
+    rb: RegB[4]
+''', {0: ("low16", 0x1111), 1: ("low16", 0x2222)}),
+    # an address range whose size is not a power of two, directly followed by registers
+    "window": ('''class MyRoot(reg32.AddrMap, word_count=8):
+    mem: reg32.Memory[0x00:0x0C]
+    ctrl: reg32.MemWord[0x0C]
+    stat: reg32.MemWord[0x10]
+''', {0: "ramword", 1: "ramword", 2: "ramword", 3: "memword", 4: "memword"}),
     # two levels of RegFile nesting at non-zero offsets (global offset = sum of all enclosing offsets)
     "nested2": ('''class Inner2(reg32.RegFile, word_count=2):
     m: reg32.MemWord[4]
@@ -124,7 +143,7 @@ class AxiMonitor(Monitor):
     def __init__(self, model, no_reset=False):
         super().__init__()
         self.model = model  # word address -> kind
-        self.regs = {a: 0 for a in model}  # upper16: 16 bit payload; memword: 32 bit payload
+        self.regs = {a: (k[1] if isinstance(k, tuple) else 0) for a, k in model.items()}  # upper16 / low16: 16 bit payload; memword: 32 bit payload
         self.prev_out = {n: 0 for n in OUTPUTS}
         self.prev_in = None
         # write side
@@ -134,6 +153,9 @@ class AxiMonitor(Monitor):
         # read side
         self.r_pending = False
         self.r_data, self.r_mapped = 0, False
+        # memory words ("ramword") have no reset and no initial value: a byte is checked once it has been written
+        self.known = {a: 0 for a, k in model.items() if k == "ramword"}
+        self.r_known = 15
         self.no_reset = no_reset
 
     def word(self, addr):
@@ -180,10 +202,17 @@ class AxiMonitor(Monitor):
         # ---------------- read transaction: data is the register value at the moment the request is accepted
         self.check(D.b_implies(hs_ar, D.b_not(self.r_pending)), "second read address accepted while a read is outstanding")
         rword = self.word(ins["axi_araddr"])
-        rdata, rmapped = 0, False
+        rdata, rmapped, rknown = 0, False, 15
         for a, kind in self.model.items():
             hit = D.v_eq(rword, a, AW - 2)
-            val = self.regs[a] if kind == "memword" else D.v_concat(self.regs[a], 16, D.v_not(self.regs[a], 16), 16)
+            if kind == "ramword":
+                rknown = mux(hit, self.known[a], rknown, 4)
+            if kind in ("memword", "ramword"):
+                val = self.regs[a]
+            elif isinstance(kind, tuple):  # ("low16", reset value): MemUField[15:0], upper half reads zero
+                val = D.v_zext(self.regs[a], 16, 32)
+            else:
+                val = D.v_concat(self.regs[a], 16, D.v_not(self.regs[a], 16), 16)
             rdata = mux(hit, val, rdata, 32)
             rmapped = D.b_or(rmapped, hit)
         # ---------------- apply the write (after the read sampled the old value: registers change with the edge)
@@ -191,9 +220,17 @@ class AxiMonitor(Monitor):
         new_regs = {}
         for a, kind in self.model.items():
             hit = D.b_and(complete, D.v_eq(wword, a, AW - 2))
-            if kind == "memword":
+            if kind == "ramword":
+                nv = merge_bytes(self.regs[a], w_data, w_strb, 0, 4)
+                new_regs[a] = mux(hit, nv, self.regs[a], 32)
+                # a reset may abort a write that was accepted but not yet carried out by the memory process: contents unknown again
+                self.known[a] = mux(rst, 0, mux(hit, D.v_or(self.known[a], w_strb, 4), self.known[a], 4), 4)
+            elif kind == "memword":
                 nv = merge_bytes(self.regs[a], w_data, w_strb, 0, 4)
                 new_regs[a] = mux(rst, 0, mux(hit, nv, self.regs[a], 32), 32)
+            elif isinstance(kind, tuple):
+                nv = merge_bytes(self.regs[a], D.v_extract(w_data, 15, 0, 32), w_strb, 0, 2)
+                new_regs[a] = mux(rst, kind[1], mux(hit, nv, self.regs[a], 16), 16)
             else:
                 nv = merge_bytes(self.regs[a], D.v_extract(w_data, 31, 16, 32), w_strb, 2, 2)
                 new_regs[a] = mux(rst, 0, mux(hit, nv, self.regs[a], 16), 16)
@@ -209,10 +246,15 @@ class AxiMonitor(Monitor):
         r_owed = D.b_or(self.r_pending, hs_ar)
         self.check(D.b_implies(D.b_and(nr, bit(outs["axi_rvalid"])), D.b_and(r_owed, D.b_not(hs_r))), "RVALID without an outstanding read request (or repeated response)")
         self.r_data = mux(hs_ar, rdata, self.r_data, 32)
+        self.r_known = mux(hs_ar, rknown, self.r_known, 4)
         self.r_mapped = D.b_ite(hs_ar, rmapped, self.r_mapped)
         self.r_pending = D.b_ite(rst, False, D.b_and(r_owed, D.b_not(hs_r)))
         # read data: the addressed register's value
-        self.check(D.b_implies(D.b_and(D.b_and(nr, bit(outs["axi_rvalid"])), D.b_and(self.r_pending, self.r_mapped)), D.v_eq(outs["axi_rdata"], self.r_data, 32)),
+        same = True
+        for kb in range(4):
+            eqb = D.v_eq(D.v_extract(outs["axi_rdata"], 8 * kb + 7, 8 * kb, 32), D.v_extract(self.r_data, 8 * kb + 7, 8 * kb, 32), 8)
+            same = D.b_and(same, D.b_implies(D.v_eq(D.v_extract(self.r_known, kb, kb, 4), 1, 1), eqb))
+        self.check(D.b_implies(D.b_and(D.b_and(nr, bit(outs["axi_rvalid"])), D.b_and(self.r_pending, self.r_mapped)), same),
                    "read data differs from the addressed register's value (decode / strobe masking / field layout)")
         # a response that is owed is presented without the master having to do anything: bounded progress
         self.prev_in = dict(ins)
@@ -249,35 +291,60 @@ def run(tier: str) -> int:
     states = transitions = 0
     K = 8 if tier == "quick" else 10
     try:
-        for name in list(MAPS):
+        names = list(MAPS)
+        jobs = [(name, kind) for name in names for kind in ("protocol+data", "progress")]
+
+        def job(i, rw, wdw):
+            name, kind = jobs[i]
             src = design(name)
             model = MAPS[name][1]
-            text, exc = compile_design(wd, src, "W", "c20")
-            rep.stats.programs += 1
+            text, exc = compile_design(wdw, src, "W", "c20")
             if text is None:
-                rep.violation(f"rejected|{name}", f"{name}: register map design rejected: {type(exc).__name__}: {str(exc)[:300]}", {"source": src})
-                continue
+                return {"status": "rejected", "why": f"{type(exc).__name__}: {str(exc)[:300]}", "source": src}
             try:
                 lib = VS.Library(text)
                 VS.Sim(lib)
             except Illegal as e:
-                rep.violation(f"illegal|{name}", f"{name}: emitted VHDL illegal: {e}", {"source": src, "vhdl": text})
+                return {"status": "illegal", "why": str(e), "source": src, "vhdl": text}
+            kk, mk = (K, lambda: AxiMonitor(model)) if kind == "protocol+data" else (10, lambda: ProgressMonitor(model, 10))
+            status, info = run_bmc(rw.stats, lib, INPUTS, OUTPUTS, kk, mk, timeout_ms=900000)
+            return {"status": status, "info": info if isinstance(info, (dict, str)) else str(info), "kk": kk, "source": src, "vhdl": text if status == "violation" else None,
+                    "validated": rw.stats.extra.get("traces_validated", 0)}
+
+        from ..core import parallel_programs
+        results = parallel_programs(rep, len(jobs), job)
+        rep.stats.programs += len(names)
+        validated = 0
+        for i in sorted(results):
+            (name, kind), r = jobs[i], results[i]
+            key = f"{name}|{kind}"
+            status = r["status"]
+            if status == "rejected":
+                if kind == "protocol+data":
+                    rep.violation(f"rejected|{name}", f"{name}: register map design rejected: {r['why']}", {"source": r["source"]})
                 continue
-            for kind, kk, mk in (("protocol+data", K, lambda: AxiMonitor(model)), ("progress", 10, lambda: ProgressMonitor(model, 10))):
-                status, info = run_bmc(rep.stats, lib, INPUTS, OUTPUTS, kk, mk, timeout_ms=900000)
-                counts[status] = counts.get(status, 0) + 1
-                transitions += kk
-                states += kk + 1
-                key = f"{name}|{kind}"
-                if status == "ok":
-                    rep.stats.nontrivial.add(key)
-                    rep.stats.sample({"design": key, "K": kk, "verdict": "unsat: protocol and data monitors hold at every clock for every master behaviour"}, limit=3)
-                elif status == "violation":
-                    msg = info["failed"][0][0]
-                    rep.violation(f"{name}|{msg.split(' (')[0][:60]}", f"{key}: {msg} at clock {info['failed'][0][1]}", {"source": src, "vhdl": text, **info})
-                    rep.stats.extra["traces_validated"] = rep.stats.extra.get("traces_validated", 0) + 1
-                else:
-                    rep.inconclusive_query(f"{key}: {status} {info}")
+            if status == "illegal":
+                if kind == "protocol+data":
+                    rep.violation(f"illegal|{name}", f"{name}: emitted VHDL illegal: {r['why']}", {"source": r["source"], "vhdl": r["vhdl"]})
+                continue
+            if status == "worker-error":
+                rep.inconclusive_query(f"{key}: {r['why']}")
+                continue
+            info, kk = r["info"], r["kk"]
+            counts[status] = counts.get(status, 0) + 1
+            transitions += kk
+            states += kk + 1
+            if status == "ok":
+                validated += 1
+                rep.stats.nontrivial.add(key)
+                rep.stats.sample({"design": key, "K": kk, "verdict": "unsat: protocol and data monitors hold at every clock for every master behaviour"}, limit=3)
+            elif status == "violation":
+                msg = info["failed"][0][0]
+                rep.violation(f"{name}|{msg.split(' (')[0][:60]}", f"{key}: {msg} at clock {info['failed'][0][1]}", {"source": r["source"], "vhdl": r["vhdl"], **info})
+                validated += 1
+            else:
+                rep.inconclusive_query(f"{key}: {status} {info}")
+        rep.stats.extra["traces_validated"] = validated
         rep.stats.units |= {"cohdl.std.axi.axi4_light.base (await_read_request / send_read_resp / await_write_request / send_write_response / connect_addr_map)",
                             "cohdl.std.reg.reg (AddrMap / RegFile dispatch, _contains_addr_, Register._basic_write_, MemWord._on_write_)", "cohdl.std._core_utility.Mask / apply_mask / stretch"}
         rep.assumptions += ["AXI master rules assumed: AWVALID/WVALID/ARVALID held and payload stable until the handshake; everything else (all valids, readies, addresses, data, strobes, reset) symbolic at every clock",
